@@ -23,7 +23,16 @@ def m_xchg(tier):
                 MaxLen=2, MaxLenB=2 if tier != "quick" else 1, MaxExt=1, MaxOut=0, MaxRepl=0, OneHandle=True, forms=["x..y"],
                 srcs=["wrapper"], timeout=6000)
 
+def m_shift(tier):
+    # layout sweep: one long vector, only the byte-moving paths (erased insert/remove/swap_remove, drain/splice tail moves),
+    # so that the shifted byte counts cross the word (8) and memmove (128) thresholds of the copy helpers on every layout
+    return dict(alpha=["push", "insert", "remove", "swap_remove", "drain", "splice"], MaxLen=6 if tier == "quick" else 9, MaxLenB=0,
+                MaxExt=0, MaxOut=0, MaxRepl=2, OneHandle=True, forms=["x..y"], srcs=["raw", "typed"], sinks=["drop"], timeout=6000)
+LAYOUTS_Q = ["heap1n", "heap3n", "heap12d", "heap24d", "heap0d"]
+LAYOUTS_T = ["heap1n", "heap2d", "heap3n", "heap8d", "heap12d", "heap16d", "heap24d", "heap32d", "heap64n", "heap160", "heap160a32", "heap0d", "heap0n"]
+
 MODELS = {
+    "shift": m_shift,
     "xchg": m_xchg,
     "elem": m_elem,
     "range": m_range,
@@ -36,13 +45,17 @@ def cfgs(names, profiles=(R,), alloc=True):
 
 def c01(tier):
     if tier == "quick":
-        return [dict(model="elem", configs=cfgs(["heap8d", "heap3n"], (R,)) + cfgs(["heap160"], (D,)))]
-    return [dict(model="elem", configs=cfgs(["heap8d", "heap3n", "heap160", "heap0d"], (R, D)))]
+        return [dict(model="elem", configs=cfgs(["heap8d", "heap3n", "heap0d"], (R,)) + cfgs(["heap160"], (D,))),
+                dict(model="shift", configs=cfgs(LAYOUTS_Q, (R,)))]
+    return [dict(model="elem", configs=cfgs(["heap8d", "heap3n", "heap160", "heap0d", "heap12d", "heap1n"], (R, D))),
+            dict(model="shift", configs=cfgs(LAYOUTS_T, (R, D)))]
 
 def c02(tier):
     if tier == "quick":
-        return [dict(model="range", configs=cfgs(["heap8d"], (R, D)) + cfgs(["heap3n"], (R,)))]
-    return [dict(model="range", configs=cfgs(["heap8d", "heap3n", "heap160", "heap0d"], (R, D)))]
+        return [dict(model="range", configs=cfgs(["heap8d"], (R, D)) + cfgs(["heap3n", "heap0d"], (R,))),
+                dict(model="shift", configs=cfgs(LAYOUTS_Q, (R,)))]
+    return [dict(model="range", configs=cfgs(["heap8d", "heap3n", "heap160", "heap0d", "heap12d"], (R, D))),
+            dict(model="shift", configs=cfgs(LAYOUTS_T, (R, D)))]
 def c14(tier):
     if tier == "quick":
         return [dict(model="iter", configs=cfgs(["heap8d"], (R,))), dict(model="range", configs=cfgs(["heap8d"], (R,)))]
@@ -50,8 +63,8 @@ def c14(tier):
 
 def c03(tier):
     if tier == "quick":
-        return [dict(model="elem", configs=cfgs(["heap8d"], (R,))), dict(model="range", configs=cfgs(["heap8d"], (R,))),
-                dict(model="xchg", configs=cfgs(["heap8d"], (R,)))]
+        return [dict(model="elem", configs=cfgs(["heap8d", "heap0d"], (R,))), dict(model="range", configs=cfgs(["heap8d", "heap0d"], (R,))),
+                dict(model="xchg", configs=cfgs(["heap8d", "heap0d"], (R,))), dict(model="shift", configs=cfgs(["heap0d", "heap12d", "heap1n"], (R,)))]
     return [dict(model="elem", configs=cfgs(["heap8d", "heap160", "heap0d", "heap3n"], (R, D))),
             dict(model="range", configs=cfgs(["heap8d", "heap160", "heap0d"], (R, D))),
             dict(model="xchg", configs=cfgs(["heap8d", "heap160", "heap0d"], (R, D)))]
@@ -64,7 +77,20 @@ def c13(tier):
         return [dict(model="elem", configs=cfgs(["heap8d", "heap3n"], (R,))), dict(model="iter", configs=cfgs(["heap8d", "heap3n"], (R,)))]
     return [dict(model="elem", configs=cfgs(["heap8d", "heap3n", "heap160", "heap0d"], (R, D))), dict(model="iter", configs=cfgs(["heap8d", "heap3n", "heap160"], (R, D)))]
 
+def c06(tier):
+    if tier == "quick":
+        return [dict(model="elem", faults=True, configs=cfgs(["heap8d"], (R,))), dict(model="range", faults=True, configs=cfgs(["heap8d"], (R,)))]
+    return [dict(model="elem", faults=True, configs=cfgs(["heap8d", "heap160"], (R, D))), dict(model="range", faults=True, configs=cfgs(["heap8d", "heap160"], (R, D)))]
+
 PLAN = {
+    "C06": dict(campaigns=c06, level="fault_enumeration",
+                claim="For every transition of the bounded element-wise and range models whose fault-free replay invoked user code N>=1 times "
+                      "(element Drop, element Clone, replacement-iterator next), the case is re-run N times with the k-th invocation panicking; "
+                      "TLC judges the state after the unwind against ruling A4 of the contract (everything visible alive, intact, once; no identity "
+                      "destroyed twice; what disappeared is leaked), then a health probe (release outstanding handles, push, read, clear every "
+                      "vector, drop extracted values) and a full teardown are judged as ordinary events from the adopted state.",
+                rule="evaluations = events judged (fault-free events, faulted events, probe events); fault_runs = number of (transition, k) runs; "
+                     "non-trivial = a transition that invoked user code at least once at depth >= 2; distinct = (action, config, profile)"),
     "C03": dict(campaigns=c03, level="model_checking",
                 claim="Ownership accounting (identity registry in the element type's own Drop/Clone) is judged by TLC on every event of the "
                       "element-wise, range and three-vector exchange models: every identity in exactly one place, every destruction of a live "
